@@ -1,5 +1,44 @@
 LEVEL = "model_checking"
+RULE = ("BEE parts, odometer enumeration (no randomness). parse: every string of length <=5 over {0 1 9 a f F g ' ' +} and "
+        "every spelling adjacent to 2^64 (2^64-2..2^64+2 with 0-3 leading zeros, three letter cases, every one-character "
+        "substitution / truncation / extension of 18446744073709551615 and FFFFFFFFFFFFFFFF, neighbouring powers of the base) "
+        "through utf8_parse_u64 and utf8_parse_u64_hex against unsigned __int128 arithmetic; aws_nospec_mask on the square of "
+        "{2^k-1, 2^k, 2^k+1, SIZE_MAX-2..SIZE_MAX, ...}; filerd: file length 0..5 x every composition into short reads x claimed "
+        "size / size hint {0,1,n-1,n,n+1} x end-of-file signalled by the read that hits the end / by an extra zero-byte read / eagerly with the last byte x "
+        "{no fault, fstat fails, k-th fread fails with ferror, k-th fread returns 0 silently} for both init_from_file functions, "
+        "plus real files. non-trivial = the string consists only of digits of the base (accumulation code ran to the end) / "
+        "the (index,bound) pair lies on a boundary of the mask's definition / the read sequence had a short read, a fired fault "
+        "or a buffer growth.")
+
+_WRAP = ["-Wl,--wrap=fread,--wrap=feof,--wrap=ferror,--wrap=fstat"]
+
 HARNESSES = [
-    dict(name="bufw", src=["bufw.c"], variant="asan", deadline={"quick": 70, "thorough": 600}),
+    dict(name="bufw", src=["bufw.c"], variant="asan", deadline={"quick": 70, "thorough": 660}),
+    dict(name="cur", src=["cur.c"], variant="asan", deadline={"quick": 60, "thorough": 300}),
+    dict(name="filerd", src=["filerd.c"], variant="asan", ldflags=_WRAP, deadline={"quick": 60, "thorough": 300}),
+    dict(name="parse", src=["parse.c"], variant="asan", deadline={"quick": 60, "thorough": 300}),
+    # Debug build of the library: its own AWS_PRECONDITION / AWS_POSTCONDITION (aws_byte_buf_is_valid,
+    # aws_byte_cursor_is_valid ...) are live and abort on the first contradiction -> second oracle
+    dict(name="bufw-dbg", src=["bufw.c"], variant="asan-dbg", tiers=["thorough"], args=["--dbg"], deadline={"quick": 70, "thorough": 400}),
+    dict(name="cur-dbg", src=["cur.c"], variant="asan-dbg", tiers=["thorough"], deadline={"quick": 60, "thorough": 300}),
+    dict(name="filerd-dbg", src=["filerd.c"], variant="asan-dbg", tiers=["thorough"], ldflags=_WRAP, deadline={"quick": 60, "thorough": 300}),
 ]
-ASSUMPTIONS = []
+
+ASSUMPTIONS = [
+    "bufw: ONE subject buffer per history (owned dynamic with three allocator realloc behaviours / over exact-size caller storage / "
+    "over caller storage with 8 guard bytes each side); other operands are transient: prefixes of a fixed 3-symbol pattern "
+    "('a','F',' '), the buffer's own bytes (self-append, cursor into the destination), {NULL,0}, or a fake-huge cursor "
+    "(len in {SIZE_MAX/2, SIZE_MAX/2+1, SIZE_MAX-1, SIZE_MAX} over one valid byte) given only to calls that must refuse it",
+    "bufw bounds: capacity <=3 (quick) / <=4 (thorough) explored to the FIXPOINT (histories of every length); capacity <=6 to "
+    "depth 4 (quick) / 6 (thorough); growth that would exceed the capacity bound, and huge reservations that would really "
+    "allocate (OOM aborts in aws_mem_acquire), are not enabled",
+    "cur: one cursor over every source of <=5 bytes from {'a','F',' '}, every sub-range, or {NULL,0}; explored to the fixpoint",
+    "states are de-duplicated on a 128-bit hash of the canonical state (hash compaction)",
+    "readings: bytes of a fresh allocation and bytes beyond len after a grow are unspecified (wild cards); reset(zero=true) must "
+    "zero at least the old [0,len); on failure of aws_byte_buf_cat the parts before the one that did not fit stay appended and "
+    "on failure of split_on_char[_n] the static list holds the first pieces (the two documented partial operations); "
+    "split_on_char_n(n>0) yields n pieces plus the rest of the string; which error code a refusal raises is checked only where "
+    "byte_buf.h names it (DEST_COPY_TOO_SMALL, STRING_MATCH_NOT_FOUND), otherwise any registered code; pure out-parameters of a "
+    "failed call are not constrained except where the header says so (buf_advance nulls its output)",
+    "filerd: libc's fread/feof/ferror/fstat are interposed with -Wl,--wrap for the harness link only; fopen/fileno/fclose stay real",
+]
